@@ -28,7 +28,7 @@ COMPONENTS = {"real": ["py7zr reader", "CPython buffered I/O", "tmpfs for extrac
 def plan(tier):
     if tier == "thorough":
         return {"n": None, "budget_s": int(os.environ.get("VERIF_BUDGET_S", "900")), "case_timeout": 300}
-    return {"n": 1500, "budget_s": 170, "case_timeout": 120}
+    return {"n": 1500, "budget_s": 170, "case_timeout": 60}
 
 
 def gen_case(rng: Rng, i: int, tier: str):
@@ -38,6 +38,14 @@ def gen_case(rng: Rng, i: int, tier: str):
     names = _recipe_names(arc)
     model_stub = [rw.Mem(n, b"", "file", None, None) for n in names]
     seq = rsess.gen_sequence(r, model_stub, maxlen=8 if tier == "thorough" else 5)
+    rl = rng.sub("long")
+    if names and rl.chance(0.012):
+        # "any number of times within one session": one long walk over the members, reset() before every extract(),
+        # well beyond any internal queue or counter that a handful of calls never fills
+        seq = []
+        for k in range(rl.pick([520, 600])):
+            seq.append({"op": "reset"})
+            seq.append({"op": "extract", "targets": [names[k % len(names)]], "recursive": False, "as": "list", "sink": "factory"})
     return {"archive": arc, "seq": seq, "open": r.pick(["path", "stream", "anon"]), "end": r.wpick([(3, "close"), (2, "ctx"), (2, "exception")]),
             "read": {"block": r.pick([16, 4096, 32768, 1048576]), "chunk": r.pick([17, 4096, 128000000]), "bufsize": r.pick([16, 512, 8192])},
             "exc_at": r.randint(0, 3)}
